@@ -2,7 +2,7 @@
 // sync_current, sync_only, send_current, clear_failed, flush_all) -- property C07, consumer-session half. (An async select!
 // loop over byte channels: outside Verus/Kani.) The real `read_task` runs as a tokio task on a current-thread runtime; the
 // harness feeds it ONE input at a time (a consumer attaching with/without SYNC, a consumer going away, or one frame from the
-// remote lane: linked / event v / synced), lets it run until it is idle, then reads what each consumer received.
+// remote lane: linked / the next numbered event / synced), lets it run until it is idle, then reads what each consumer received.
 // Checked on EVERY well-behaved input sequence up to VERIF_BX_DEPTH (value downlink interpretation; at most 3 consumers).
 // Contract (from the property): every consumer receives `linked` (at once if the link is already up), a consumer that asked to
 // be synced then receives the current value and `synced` at the next `synced` of the link and every later event in order; a
@@ -21,12 +21,15 @@ use swimos_utilities::non_zero_usize;
 enum Op {
     Attach { sync: bool },
     Detach(usize),
+    // consumers 0 and 1 go away together (both are found dead in the same pass over the consumers)
+    DetachBoth,
     Linked,
-    Event(i32),
+    // the next event of the lane (events are numbered 1, 2, ...)
+    Event,
     Synced,
 }
 fn universe() -> Vec<Op> {
-    vec![Op::Attach { sync: false }, Op::Attach { sync: true }, Op::Detach(0), Op::Detach(1), Op::Linked, Op::Event(1), Op::Event(2), Op::Synced]
+    vec![Op::Attach { sync: false }, Op::Attach { sync: true }, Op::Detach(0), Op::Detach(1), Op::DetachBoth, Op::Linked, Op::Event, Op::Synced]
 }
 type Reader = FramedRead<ByteReader, ValueNotificationDecoder<i32>>;
 struct Consumer {
@@ -62,13 +65,15 @@ async fn run_sequence(seq: &[Op]) -> Result<bool, String> {
     let mut consumers: Vec<Consumer> = vec![];
     let mut link_up = false;
     let mut current: Option<i32> = None;
+    let mut next_event = 1i32;
     for (step, op) in seq.iter().enumerate() {
         // only what a well-behaved link and its users can produce
         let legal = match *op {
             Op::Attach { .. } => consumers.len() < 3,
             Op::Detach(i) => i < consumers.len() && consumers[i].reader.is_some(),
+            Op::DetachBoth => consumers.len() >= 2 && consumers[0].reader.is_some() && consumers[1].reader.is_some(),
             Op::Linked => !link_up,
-            Op::Event(_) | Op::Synced => link_up,
+            Op::Event | Op::Synced => link_up,
         };
         if !legal {
             task.abort();
@@ -89,6 +94,10 @@ async fn run_sequence(seq: &[Op]) -> Result<bool, String> {
             Op::Detach(i) => {
                 consumers[i].reader = None;
             }
+            Op::DetachBoth => {
+                consumers[0].reader = None;
+                consumers[1].reader = None;
+            }
             Op::Linked => {
                 remote.send(ResponseMessage::<&str, i32, &[u8]>::linked(addr, path())).await.map_err(|e| format!("step {step}: {e}"))?;
                 link_up = true;
@@ -97,7 +106,9 @@ async fn run_sequence(seq: &[Op]) -> Result<bool, String> {
                     c.expected.push("linked".into());
                 }
             }
-            Op::Event(v) => {
+            Op::Event => {
+                let v = next_event;
+                next_event += 1;
                 remote.send(ResponseMessage::<&str, i32, &[u8]>::event(addr, path(), v)).await.map_err(|e| format!("step {step}: {e}"))?;
                 current = Some(v);
                 for c in consumers.iter_mut() {
@@ -201,7 +212,7 @@ fn downlink_read_task_contract() {
             }
         }
     }
-    println!("BX-SAMPLE depth={depth} inputs {{attach(sync), attach(no sync), detach 0, detach 1, linked, event 1, event 2, synced}}; e.g. [Attach(sync), Linked, Event(1), Attach(no sync), Synced, Event(2)]");
+    println!("BX-SAMPLE depth={depth} inputs {{attach(sync), attach(no sync), detach 0, detach 1, detach 0+1, linked, next event, synced}}; e.g. [Attach(sync), Linked, Event, Attach(no sync), Synced, Event]");
     match failure {
         None => println!("BX-OBL downlink_read_task::every_consumer_gets_a_complete_ordered_session ok evaluations={evaluations} distinct={nontrivial}"),
         Some(w) => {
